@@ -25,12 +25,12 @@ DECIDING = ["mask_tokens_checked", "preserved_tokens_checked", "inverse_probes_i
 
 def cases(ctx):
     rng = ctx.rng
-    for fcfg in ipref.file_configs(rng, ctx.per_shard(ctx.pick(400, 8000)), quick=ctx.quick):
+    for fcfg in ipref.file_configs(rng, ctx.per_shard(ctx.pick(400, 60000)), quick=ctx.quick):
         yield {"kind": "text", "fcfg": fcfg, "lseed": rng.getrandbits(32)}
     # exhaustive over the mask table x spellings, one config per shard
     fcfg = next(ipref.file_configs(rng, 1, quick=ctx.quick))
     yield {"kind": "allmasks", "fcfg": fcfg, "lseed": rng.getrandbits(32)}
-    for i in range(ctx.per_shard(ctx.pick(1500, 50000))):
+    for i in range(ctx.per_shard(ctx.pick(1500, 400000))):
         plen = rng.choice([0, 1, 4, 8, 12, 16, 20, 24, 27, 30, 31, 32, rng.randint(0, 32)])
         pa = [ipgen.rand_net4(rng, plen)]
         if rng.random() < 0.3:
